@@ -109,9 +109,9 @@ Outcome(E, tn, fn, tag) ==
 
 OcLen(oc) == IF "len" \in DOMAIN oc THEN oc.len ELSE 2
 OcRt(S, oc, tn, i) ==      \* runtime type of the i-th (0 = scalar position) value
-  IF ~IsAbstractKind(KindOf(S, tn)) THEN tn
-  ELSE IF i > 0 /\ "rts" \in DOMAIN oc THEN oc.rts[i]
+  IF i > 0 /\ "rts" \in DOMAIN oc THEN oc.rts[i]
   ELSE IF "rt" \in DOMAIN oc THEN oc.rt
+  ELSE IF ~IsAbstractKind(KindOf(S, tn)) THEN tn
   ELSE S.types[tn].defrt
 
 \* natural value of field fn (declared type t) resolved on source tag
@@ -185,6 +185,10 @@ ExecField(E, ot, g, src, path) ==
       fn == f1.name
   IN
   IF fn = "__typename" THEN [R0 EXCEPT !.val = StrV(ot)]
+  ELSE IF E.S.types[ot].plain THEN
+    \* no resolver: the default resolver reads the (map) source by field name; no invocation is logged
+    LET fd == FieldDef(E.S, ot, fn)
+    IN CompleteV(E, fd.type, g, ValueFor(E.S, fd.type, src.tag \o "." \o fn, fn, DefaultOutcome), path)
   ELSE
     LET fd == FieldDef(E.S, ot, fn)
         oc == Outcome(E, ot, fn, src.tag)
@@ -264,14 +268,18 @@ CompleteV(E, t, g, rv, path) ==
       LET sv == SerializeLeaf(E.S, t.n, rv)
       IN IF IsNullV(sv) THEN [R0 EXCEPT !.opt = <<path>>] ELSE [R0 EXCEPT !.val = sv]
     ELSE IF IsAbstractKind(kd) THEN
-      \* the type resolver is consulted with the value; it must name a possible type
-      LET tc == <<[p |-> StripIdx(path), v |-> IF rv.k = "src" THEN rv.tag ELSE "?"]>> IN
+      \* the type resolver (or, without one, the implementers' IsTypeOf) is consulted with the
+      \* value; it must name a possible type
+      LET tc == IF E.S.types[t.n].noRT THEN <<>>
+                ELSE <<[p |-> StripIdx(path), v |-> IF rv.k = "src" THEN rv.tag ELSE "?"]>> IN
       IF rv.k # "src" \/ rv.rt \notin PossibleTypes(E.S, t.n)
       THEN [Fail(path, FALSE) EXCEPT !.tcalls = tc]
       ELSE LET r == ExecSel(E, rv.rt, MergedSels(g), rv, path)
            IN [r EXCEPT !.tcalls = tc \o @]
-    ELSE \* object type: any value is a source; a value of a foreign Go kind is tagged "?"
-      ExecSel(E, t.n, MergedSels(g), IF rv.k = "src" THEN rv ELSE [k |-> "src", tag |-> "?", rt |-> t.n], path)
+    ELSE \* object type: any value is a source; a value of a foreign Go kind is tagged "?".
+         \* An object type with IsTypeOf refuses values that are not of that type.
+      IF E.S.types[t.n].isTypeOf /\ (rv.k # "src" \/ rv.rt # t.n) THEN Fail(path, FALSE)
+      ELSE ExecSel(E, t.n, MergedSels(g), IF rv.k = "src" THEN rv ELSE [k |-> "src", tag |-> "?", rt |-> t.n], path)
 
 \* ------------------------------------------------------------- requests
 \* D = [ops |-> <<[kind, name, vdefs, sel]>>, frags |-> <<[name, on, sel]>>]
